@@ -69,3 +69,12 @@ pub assume_specification<'a>[ <core::str::Chars<'a> as Iterator>::count ](it: co
 /// A2: the blanket `impl<T: Clone> ToOwned for T` (used as `&String -> String`) does not panic
 pub assume_specification<T: Clone>[ <T as std::borrow::ToOwned>::to_owned ](t: &T) -> (r: T)
     ensures r == *t;
+
+
+/// A2: `String::len` is the UTF-8 *byte* length: between one and four bytes per character (the
+/// view of a String is its sequence of chars)
+pub assume_specification[ String::len ](s: &String) -> (r: usize)
+    ensures
+        s@.len() <= r,
+        r <= 4 * s@.len(),
+        s.is_ascii() ==> r == s@.len();
